@@ -16,10 +16,11 @@ def fldVal (f : Fld) : Val := .record [("name", .int f.name), ("values", .int f.
 /-- the field `_without_annotation` builds -/
 def stripF (strip : Nat → Nat) (f : Fld) : Fld := ⟨strip f.name, f.tag⟩
 
-/-- a `FieldComparison` object reduced to what is observable: name, status, and its truth value
-    (`__bool__` = `not self.is_failure` = `not (not self.status)`, cf. `C11_source_field_comparison_bool`) -/
+/-- a `FieldComparison` object reduced to what is observable: name, status, the property `is_failure` (= `not self.status`)
+    and its truth value (`__bool__` = `not self.is_failure`), so that `not c` and `c.is_failure` are the same test -/
 def cmpObj (c : Cmp) : Val :=
-  .record [("name", .int c.name), ("status", fstVal c.status), ("__bool__", .bool c.truthy)]
+  .record [("name", .int c.name), ("status", fstVal c.status), ("is_failure", .bool (!c.truthy)),
+           ("__bool__", .bool c.truthy)]
 
 /-- a `MatchResult` of fields -/
 def queryVal (pairs : List (Fld × Fld)) (os : List Fld) (orr : List Fld) : Val :=
